@@ -9,7 +9,10 @@ RULE = ('case = one generated program (full C01 grammar, mode c01; plus structur
         '(also after earlier failed reads): lint must not report E02/E42 there, assist at the end of the identifier '
         'must offer it.  non-trivial = program with >= 5 distinct successfully-read sites and >= 2 executed paths; '
         'distinct by (seed, mode, size, index).  Out of the domain and not generated: match, PEP 695, except*, del, '
-        'exec/eval/globals()/locals()/setattr, AugAssign, async constructs, yield.')
+        'exec/eval/globals()/locals()/setattr, AugAssign, async constructs, yield.  Import mode: real stdlib / repository modules '
+        'are executed in a child interpreter with every identifier read wrapped in an observer; reads that succeeded there are the '
+        'same obligation (names created dynamically - not bound syntactically anywhere in the module and not builtins - are outside '
+        'the domain and counted).')
 
 
 def main(run):
@@ -19,7 +22,13 @@ def main(run):
         {'mode': 'c01', 'size': 'large', 'n': 100 if q else 3000, 'max_paths': 200 if q else 1500, 'risky': 99},
         {'mode': 'c02', 'size': 'small', 'n': 200 if q else 5000, 'max_paths': 200 if q else 1500, 'risky': 2},
     ]
-    return e1common.run(run, plan, RULE,
+    jobs = import_jobs(run)
+    rng = run.rng('import-mode')
+    rng.shuffle(jobs)
+    if q:
+        jobs = jobs[:64]
+    extra = [('vf.props.c01:work_import', {'jobs': jobs[i:i + 8], 'assist_per_module': 8 if q else 20}) for i in range(0, len(jobs), 8)]
+    return e1common.run(run, plan, RULE, extra_jobs=extra,
                         require=('C01_successful_read_sites', 'C01_assist_checked', 'paths_executed'),
                         assumptions=['the opaque helpers (vf/dynrt.py) only supply decisions and fresh values; the program text supp analyses is the text CPython runs',
                                      'assist is asked at up to 60 read sites per program (the first ones in source order); lint covers all',
@@ -27,3 +36,138 @@ def main(run):
 
 
 replay = e1common.replay
+
+
+# ---------------------------------------------------------------------------------------------------------
+# "import mode": real modules of the standard library and of the repository are executed (their module bodies,
+# class bodies, decorators, defaults, annotations, and whatever import calls) in a child interpreter with every
+# identifier read wrapped in an observer; every read that succeeded there is the same obligation as above.
+
+IMPORT_EXCLUDE = ('antigravity', 'this', 'idlelib', 'tkinter', 'turtledemo', 'turtle', 'lib2to3', 'ensurepip', 'venv',
+                  'pydoc_data', 'site', 'sitecustomize', 'usercustomize', '__phello__', '__hello__', 'msilib', 'test',
+                  '_pyrepl', 'pip', 'setuptools', 'curses', 'dbm', 'webbrowser', 'nturl2path', 'winreg')
+
+
+def import_jobs(run):
+    import os
+    from vf import corpus, core
+    root = corpus.stdlib_root()
+    jobs = []
+    for path in corpus.stdlib_files():
+        rel = os.path.relpath(path, root)[:-3].split(os.sep)
+        if rel[-1] == '__init__':
+            rel = rel[:-1]
+        if not rel or rel[-1] == '__main__' or rel[0] in IMPORT_EXCLUDE or not all(p.isidentifier() for p in rel):
+            continue
+        if any(p.startswith('win') or p.endswith('_win32') or 'windows' in p or p.startswith('_osx') or p == 'mbcs' or p == 'oem' for p in rel):
+            continue
+        jobs.append({'name': '.'.join(rel), 'path': path})
+    for path in corpus.repo_files():
+        rel = os.path.relpath(path, core.REPO)[:-3].split(os.sep)
+        if rel[0] == 'supp' and rel[-1] not in ('server', 'linter', 'conftest'):
+            if rel[-1] == '__init__':
+                rel = rel[:-1]
+            jobs.append({'name': '.'.join(rel), 'path': path})
+    return jobs
+
+
+def work_import(arg):
+    import ast
+    import builtins
+    import json
+    import os
+    import shutil
+    import subprocess
+    import symtable
+    import tempfile
+    from vf import core
+    from supp import linter, assistant
+    from supp.project import Project
+    part = core.Part()
+    tmp = tempfile.mkdtemp(prefix='vf-c01i-')
+    try:
+        jf, of = os.path.join(tmp, 'jobs.json'), os.path.join(tmp, 'out.json')
+        with open(jf, 'w') as f:
+            json.dump(arg['jobs'], f)
+        env = core.child_env({'HOME': tmp, 'PYTHONWARNINGS': 'ignore'})
+        try:
+            subprocess.run([core.PY, '-B', '-m', 'vf.c01_child', jf, of], cwd=tmp, env=env, timeout=240,
+                           stdout=subprocess.DEVNULL, stderr=subprocess.DEVNULL, stdin=subprocess.DEVNULL)
+        except subprocess.TimeoutExpired:
+            part.count('import_mode_batches_timed_out(partial results used)')
+        try:
+            results = json.load(open(of))
+        except Exception:
+            results = []
+        part.count('import_mode_modules_attempted', len(arg['jobs']))
+        bnames = set(dir(builtins))
+        for r in results:
+            if 'skip' in r:
+                part.hist('import_mode_skipped', r['skip'].split(':')[0])
+                continue
+            text, path = r['text'], r['path']
+            part.count('import_mode_modules_executed')
+            part.count('import_mode_successful_read_sites', len(r['success']))
+            part.case('import:' + r['name'], nontrivial=len(r['success']) >= 20)
+            project = Project([os.path.dirname(path)])
+            try:
+                rows = linter.lint(project, text, path)
+            except Exception as e:
+                part.count('lint_raised(C08 business)')
+                continue
+            bad = {(x[2], x[3]): x for x in rows if x[0] in ('E02', 'E42')}
+            ok = {(l, c): n for l, c, n in r['success']}
+            hits = [(pos, bad[pos]) for pos in ok if pos in bad and bad[pos][1].endswith(': ' + ok[pos])]
+            part.count('C01_successful_read_sites', len(ok))
+            # domain: the identifier is bound syntactically somewhere in the module, or is a builtin; names created through
+            # globals().update(...), setattr(module, ...) and the like, and PEP 695 type parameters, are outside it
+            bound = set()
+
+            def walk(t):
+                for sy in t.get_symbols():
+                    if sy.is_assigned() or sy.is_imported() or sy.is_parameter() or sy.is_namespace():
+                        bound.add(sy.get_name())
+                for c in t.get_children():
+                    walk(c)
+            try:
+                walk(symtable.symtable(text, path, 'exec'))
+                tree = ast.parse(text)
+            except Exception:
+                part.count('import_mode_symtable_failed')
+                continue
+            typeparams = set()
+            for n in ast.walk(tree):
+                for tp in getattr(n, 'type_params', None) or ():
+                    typeparams.add(tp.name)
+            star = 'star-import-in-module' if any(isinstance(n, ast.ImportFrom) and n.names[0].name == '*' for n in ast.walk(tree)) else 'no-star'
+
+            def in_domain(name):
+                if name in typeparams:
+                    part.count('import_mode_reads_of_type_parameters(outside the domain)')
+                    return False
+                if name not in bound and name not in bnames:
+                    part.count('import_mode_reads_of_dynamically_created_names(outside the domain)')
+                    return False
+                return True
+            for pos, row in hits:
+                name = ok[pos]
+                if in_domain(name):
+                    part.violation('unclassified:import-mode:%s:%s:%s' % (row[0], 'builtin' if name not in bound else 'bound-in-module', star),
+                                   '%s: lint reports %s %r at %s but importing the module read %s successfully' % (r['name'], row[0], row[1], pos, name),
+                                   {'module': r['name'], 'path': path, 'read': [pos[0], pos[1], name], 'text': text if len(text) < 60000 else None})
+            # assist on a sample
+            sample = sorted(ok)[::max(1, len(ok) // arg.get('assist_per_module', 12))][:arg.get('assist_per_module', 12)]
+            for pos in sample:
+                name = ok[pos]
+                try:
+                    prefix, props = assistant.assist(project, text, (pos[0], pos[1] + len(name)), path)
+                except Exception:
+                    part.count('assist_raised(C08 business)')
+                    continue
+                part.count('C01_assist_checked')
+                if name not in props and in_domain(name):
+                    part.violation('unclassified:import-mode:assist-missing:%s' % star, '%s: assist at end of %s %s does not offer it' % (r['name'], name, pos),
+                                   {'module': r['name'], 'path': path, 'read': [pos[0], pos[1], name]})
+    finally:
+        shutil.rmtree(tmp, ignore_errors=True)
+    return part.dump()
